@@ -78,5 +78,15 @@ Next == /\ ~done /\ done' = TRUE
                   k < total => Emit(<<"save-prefix", ui, k>>, "save", "prefix", TruncSegs(Segs(parts), k), "refuse")
              /\ \A i \in 1..Len(parts) : parts[i].f => \A v \in Values(parts[i].n, m) :
                   Emit(<<"save-field", ui, parts[i].n, v>>, "save", parts[i].n, Segs(SetField(parts, i, v)), "any")
+        \* coordinated: a log-width and a height whose product is 2^32 + (a small multiple of the width), together with exactly the
+        \* tile bytes of the product modulo 2^32 and a well-formed tail - the reader must not return it as a map of the wrapped size
+        /\ \A lg \in {16, 17, 18} : \A r \in {1, 2} : \A kind \in {"map", "save"} :
+             LET m == Base(0, 0, FALSE)
+                 base == IF kind = "map" THEN MapParts(m, <<0,0,0,0>>, <<1,0,0,0>>) ELSE SaveParts(m, UnitParts(0, 5, 5, 120, 0, 0))
+                 li == CHOOSE i \in 1..Len(base) : base[i].n = "lgWidth"
+                 hi == CHOOSE i \in 1..Len(base) : base[i].n = "height"
+                 ti == CHOOSE i \in 1..Len(base) : base[i].n = "tiles"
+                 wrapped == [base EXCEPT ![li].s = Lit(LE32(lg)), ![hi].s = Lit(LE32(Pow2(32 - lg) + r)), ![ti].s = Zr(4 * r * Pow2(lg))]
+             IN Emit(<<"dimension-wrap", kind, lg, r>>, kind, "lgWidth+height+tiles", Segs(wrapped), "any")
 Spec == Init /\ [][Next]_done
 ====
